@@ -38,8 +38,8 @@ def shard(shard_i, nshards, tier, seed):
     col = lib.Collector()
     C1, C2 = candidates(N1, 't1', tier, 'P'), candidates(N2, 't2', tier, 'Q')
     step = 7 if tier == 'quick' else 1
-    C1s = C1[::step * 2] if tier == 'quick' else C1[::step]
-    C2s = C2[::13] if tier == 'quick' else C2[::2]
+    C1s = C1[::step * 2] if tier == 'quick' else C1[::6]
+    C2s = C2[::13] if tier == 'quick' else C2[::8]
     # the second rule of each grammar always may be a rule for the arity-2 nonterminal (so that rules using it have derivations)
     C1s += [c for c in C1 if c and c[1] in ('H', 'I') and c not in C1s]
     C2s += [c for c in C2 if c and c[1] in ('H', 'I') and c not in C2s]
@@ -58,8 +58,8 @@ def shard(shard_i, nshards, tier, seed):
                 r1 = [C1[symx.choose(A[0], 0, len(C1))], C1s[symx.choose(A[1], 0, len(C1s), free=True)]]
                 r2 = [C2[symx.choose(Bv[0], 0, len(C2), free=True)], C2s[symx.choose(Bv[1], 0, len(C2s), free=True)]]
                 # label variants are explored on top of every pair of first rules; with two rules per grammar only the plain variant (quick tier)
-                if TIER[0] == 'quick' and (r1[1] is not None or r2[1] is not None):
-                    var = 'plain'
+                if r1[1] is not None or r2[1] is not None:
+                    var = 'plain' if TIER[0] == 'quick' else ['plain', 'edges_inserted_in_reverse_order'][symx.choose(V, 0, 2, free=True)]
                 else:
                     var = variants[symx.choose(V, 0, len(variants), free=True)]
                 g1 = {'start': 'X', 'rules': [r for r in r1 if r], 'terminals': {'t1': ['L']}}
